@@ -684,7 +684,15 @@ class Interp:
             return l.cls.fq == r.cls.fq
         if l.key() == r.key() and isinstance(l, Sym) and isinstance(r, Sym):
             return True
-        a, b = sorted([l.key(), r.key()])
+        # a strict order already established on this path excludes equality
+        lk, rk = l.key(), r.key()
+        for k in (f"{lk} < {rk}", f"{lk} > {rk}", f"{rk} < {lk}", f"{rk} > {lk}"):
+            if self.memo.get(k) == 0:
+                return False
+        for k in (f"{lk} <= {rk}", f"{lk} >= {rk}", f"{rk} <= {lk}", f"{rk} >= {lk}"):
+            if self.memo.get(k) == 1:
+                return False
+        a, b = sorted([lk, rk])
         return self.decide_bool(f"{a} {'is' if identity else '=='} {b}")
 
     def _contains(self, container: V, item: V) -> bool:
@@ -1182,6 +1190,15 @@ class Interp:
             except Exception:  # noqa: BLE001
                 return Unknown("int")
         return Sym(f"int({v.key()})", TypeRef(prim="int"))
+
+    def b_float(self, node, frame):
+        v = self.eval(node.args[0], frame) if node.args else Const(0.0)
+        if isinstance(v, Const):
+            try:
+                return Const(float(v.value))
+            except Exception:  # noqa: BLE001
+                return Unknown("float")
+        return Sym(f"float({v.key()})", TypeRef(prim="float"))
 
     def b_bool(self, node, frame):
         v = self.eval(node.args[0], frame) if node.args else FALSE
